@@ -182,8 +182,9 @@ pub struct Slot<S: Spec> {
     pub trained: Option<Vec<S::V>>,
     /// `Default` followed by pushes / reserve_items only: storage is exactly modelled
     pub pure: bool,
-    /// everything that ever went into this slot or into regions it was sized from
-    pub ever: Vec<S::V>,
+    /// everything that ever went into this slot or into regions it was sized from (a set:
+    /// self-referential merges would otherwise grow it exponentially)
+    pub ever: std::collections::HashSet<S::V>,
 }
 
 impl<S: Spec> Slot<S> {
@@ -194,7 +195,7 @@ impl<S: Spec> Slot<S> {
             m: S::M::default(),
             trained: None,
             pure: true,
-            ever: Vec::new(),
+            ever: Default::default(),
         }
     }
 }
@@ -287,7 +288,7 @@ impl<S: Spec> Universe<S> {
                                 let _ = S::model_push(&mut self.slots[si].m, v);
                                 obs.idx = Some(idx_key_of::<S>(&idx));
                                 self.slots[si].items.push((idx, v.clone()));
-                                self.slots[si].ever.push(v.clone());
+                                self.slots[si].ever.insert(v.clone());
                                 self.check_all()?;
                                 obs.used = self.used(si);
                                 return Ok(obs);
@@ -328,7 +329,7 @@ impl<S: Spec> Universe<S> {
                     self.ev.hit("push-index-unpredictable(coded)");
                 }
                 self.slots[si].items.push((idx, v.clone()));
-                self.slots[si].ever.push(v.clone());
+                self.slots[si].ever.insert(v.clone());
                 if let (Some(hb), Some(ub)) = (heap_before, used_before) {
                     let ha = heap_pairs(&self.slots[si].r);
                     let ua: usize = ha.iter().map(|p| p.0).sum();
@@ -394,7 +395,7 @@ impl<S: Spec> Universe<S> {
                     Err(p) => return fail(label, format!("reserve_items panicked: {p}")),
                 }
                 for v in vs {
-                    self.slots[si].ever.push(v.clone());
+                    self.slots[si].ever.insert(v.clone());
                 }
             }
             Op::ReserveRegions { slot, srcs } => {
@@ -551,7 +552,7 @@ impl<S: Spec> Universe<S> {
                 };
                 drop(refs);
                 let mut trained: Vec<S::V> = Vec::new();
-                let mut ever: Vec<S::V> = Vec::new();
+                let mut ever: std::collections::HashSet<S::V> = Default::default();
                 let mut any_items = false;
                 for s in srcs {
                     let sl = &self.slots[*s as usize % ns];
